@@ -58,6 +58,10 @@ def group_validate_cases(cases, seed):
             g2 = json.loads(json.dumps(g))
             g2["opts"]["enumNums"] = True
             out.append(g2)
+            # ... and over an enum that declares its zero option under its full name (COLOR_UNSPECIFIED)
+            g3 = json.loads(json.dumps(g))
+            g3["opts"]["zeroPrefixed"] = True
+            out.append(g3)
     return out
 
 
@@ -237,7 +241,10 @@ def reflect_cases(raw, seed):
             g2 = json.loads(json.dumps(g))
             g2["opts"]["enumNums"] = True
             out.append(g2)
-    out.sort(key=lambda g: decl_key(g["decl"]) + str(g["opts"]["enumNums"]))
+            g3 = json.loads(json.dumps(g))
+            g3["opts"]["zeroPrefixed"] = True
+            out.append(g3)
+    out.sort(key=lambda g: decl_key(g["decl"]) + str(g["opts"]["enumNums"]) + str(g["opts"].get("zeroPrefixed")))
     return out
 
 
